@@ -62,7 +62,7 @@ func verifyFunc(p *Program, c *Contract, prop string) (res *FuncResult) {
 		res.Err = fmt.Sprintf("contract header has %d results, code has %d", len(c.Results), fn.Signature.Results().Len())
 		return
 	}
-	st := &State{heap: map[string]Term{}, invSeen: map[string]bool{}}
+	st := &State{heap: map[string]Term{}, invSeen: map[string]bool{}, inside: map[string]string{}}
 	st.alloc = x.fresh("alloc0", sInt)
 	st.assume(app(sBool, "<", intLit(0), st.alloc))
 	fr := &Frame{fn: fn, vals: map[ssa.Value]Val{}, regs: map[*ssa.Alloc]Val{}, iters: map[*ssa.Range]Term{}, loopIn: map[int]bool{}}
